@@ -386,7 +386,7 @@ func (b *Board) IsPseudoLegal(m move.Move) bool {
 	piece := b.SquaresToPiece[from]
 	occ := b.Colors[White] | b.Colors[Black]
 
-	if m.Promo() != NoPiece && piece != Pawn {
+	if m.Promo() != NoPiece && (piece != Pawn || m.Promo() < Knight || m.Promo() > Queen) {
 		return false
 	}
 
@@ -451,10 +451,9 @@ func (b *Board) IsPseudoLegal(m move.Move) bool {
 			return false
 		}
 
-		if RankBB(SeventhRank.FromPerspectiveOf(b.STM))&fromBB != 0 {
-			if m.Promo() == NoPiece {
-				return false
-			}
+		// a promotion piece is present exactly when the pawn leaves its seventh rank
+		if (RankBB(SeventhRank.FromPerspectiveOf(b.STM))&fromBB != 0) != (m.Promo() != NoPiece) {
+			return false
 		}
 
 		switch Abs(from.File() - to.File()) {
